@@ -203,8 +203,8 @@ class ScriptedTor(object):
         self.held = []          # replies not yet released (CLOSECIRCUIT / CLOSESTREAM)
         self.events = set()
         self.received = []
-        self.acked = collections.Counter()   # (kind, id) -> close replies released so far
-        self.refused = collections.Counter()  # (kind, id) -> close commands answered 552
+        self.acked = collections.Counter()   # incarnation -> close replies released so far
+        self.refused = collections.Counter()  # incarnation -> close commands answered 552
 
     def _value(self, key, lines):
         """GETINFO value: one line -> 250-key=value ; several -> 250+key= data block"""
@@ -285,7 +285,10 @@ class ScriptedTor(object):
             reply = CS.encode_reply(code, parts)
             if self.hold and line.split(' ')[0].upper() in ('CLOSECIRCUIT', 'CLOSESTREAM'):
                 w = line.split(' ')
-                self.held.append((reply, ('c' if w[0].upper() == 'CLOSECIRCUIT' else 's', int(w[1]) if len(w) > 1 and w[1].isdigit() else None)))
+                kind = 'c' if w[0].upper() == 'CLOSECIRCUIT' else 's'
+                rec = self.orc.rec(kind, int(w[1])) if len(w) > 1 and w[1].isdigit() else None
+                # the incarnation Tor knows (or last knew) under that id when the command arrives
+                self.held.append((reply, rec['gen'] if rec else None))
             else:
                 self.proto.dataReceived(reply)
 
@@ -618,7 +621,7 @@ def run_history(hist):
                     if len(ks) > 1 and not ws[0].get('share_reported'):
                         ws[0]['share_reported'] = True
                         r = ws[0]['rec']
-                        late = tor.refused[(r['kind'], r['id'])]
+                        late = tor.refused[r['gen']]
                         bad('repeated_close_requests_share_outcome',
                             '%s:different_outcomes%s' % (KINDNAME[r['kind']], ':tor_refused_command_that_arrived_after_the_event' if late else ''),
                             'close() requests on %s %d (all made while Tor still had it) completed with different outcomes %r%s'
@@ -670,7 +673,7 @@ def run_history(hist):
                     for k, ln in enumerate(lines):
                         r, notes = orc.event(ln, i + k)
                         if r['gone'] is not None and r.get('acks_at_gone') is None:
-                            r['acks_at_gone'] = tor.acked[(r['kind'], r['id'])]
+                            r['acks_at_gone'] = tor.acked[r['gen']]
                         groups.append((r, notes))
                     tor.emit(lines)
                     refresh()
@@ -708,7 +711,7 @@ def run_history(hist):
                             d = o.close()
                             pos = 'after_gone' if r['gone'] else 'live'
                         waits.append({'op': op, 'rec': r, 'step': i, 'seq': len(waits), 'position': pos,
-                                      'live': r['gone'] is None, 'acks': tor.acked[(kind, st[1])], 'recorder': CS.Recorder(d)})
+                                      'live': r['gone'] is None, 'acks': tor.acked[r['gen']], 'recorder': CS.Recorder(d)})
                         tor.pump()
                 elif op == 'ack':
                     tor.ack()
